@@ -28,6 +28,13 @@ def gen(rng, tier):
         cap = 6000 if k <= 3 else 1300 if k <= 10 else 300
         ls = [rng.choice([1, 2, 4, 1004, 1008, 1012, 1016, rng.randrange(1, cap + 1)]) if cap >= 1016 else rng.randrange(1, cap + 1) for _ in range(k)]
         cases.append({'lens': ls, 'blocked': rng.random() < 0.5, 'api': rng.choice(['class', 'func', 'with', 'mixed', 'mixed']), 'seed': rng.randrange(1 << 30)})
+    # "the configured maximum record length" is a setting: config.config['MAX_VBS_RECORD_LENGTH'] changed by the caller
+    # after the library was imported (smaller and larger than the packaged 6000), records up to exactly that length
+    for _ in range(60 if tier == 'quick' else 1500):
+        m = rng.choice([40, 100, 1012, 6001, 7000, 12000])
+        k = rng.choice([1, 2, 4])
+        ls = [rng.choice([m, m, m - 1, max(1, m // 2), rng.randrange(1, m + 1)]) for _ in range(k)]
+        cases.append({'lens': ls, 'blocked': rng.random() < 0.5, 'api': rng.choice(['class', 'func', 'with']), 'seed': rng.randrange(1 << 30), 'maxlen': m})
     return cases
 
 
@@ -38,6 +45,18 @@ def records(case):
 
 
 def impl(case):
+    if case.get('maxlen') is not None:
+        from cardutil import config as _config
+        old = _config.config.get('MAX_VBS_RECORD_LENGTH')
+        _config.config['MAX_VBS_RECORD_LENGTH'] = case['maxlen']
+        try:
+            return impl_run(case)
+        finally:
+            _config.config['MAX_VBS_RECORD_LENGTH'] = old
+    return impl_run(case)
+
+
+def impl_run(case):
     from cardutil import mciipm
     rs = records(case)
     blocked = case['blocked']
@@ -89,7 +108,7 @@ def model_lines(case, io_):
     b = '1' if case['blocked'] else '0'
     lines = ['vbs_write %s %s' % (b, ','.join(['W' + (r.hex() or '_') for r in rs] + ['C']))]
     if io_.get('file', '').startswith('OK '):
-        lines.append('vbs_read %s %s' % (b, io_['file'][3:]))
+        lines.append(('vbs_readm %d %s %s' % (case['maxlen'], b, io_['file'][3:])) if case.get('maxlen') is not None else 'vbs_read %s %s' % (b, io_['file'][3:]))
     return lines
 
 
